@@ -395,4 +395,213 @@ Section Lexing.
       + destruct ops as [|o ops']; [apply lexS_nil|]. apply lex_ops; [discriminate | apply ws_tab | assumption].
       + destruct ops as [|o ops']; [now left | right; reflexivity].
   Qed.
+
+  Lemma lex_flat_map {A} (f : A -> bytes) (tk : A -> list ttok) l :
+    Forall (fun x => lexA (f x) (tk x)) l -> lexA (flat_map f l) (flat_map tk l).
+  Proof.
+    induction l as [|x l IH]; intros H; [apply lexA_nil|]. cbn [flat_map].
+    apply lexA_app; [exact (Forall_inv H) | apply IH; exact (Forall_inv_tail H)].
+  Qed.
+
+  (* ---------------------------------------------------------------- signatures *)
+
+  Definition p_sigel (e : sigel) : bytes := match e with SigRes t => type_str t | SigArg v => p_arg v end.
+
+  Definition csigel_ok (e : sigel) : Prop :=
+    match e with
+    | SigRes t => wf_mtype t
+    | SigArg v => wf_mtype (v_type v) /\ is_ident (v_name v) /\ 0 <= v_size v < 2 ^ 63
+    end.
+
+  Lemma lex_sigel ws e : is_ws ws -> csigel_ok e -> lexS (ws ++ p_sigel e) (tk_sigel e).
+  Proof.
+    intros Hws Hok. destruct e as [t|v]; cbn [p_sigel tk_sigel csigel_ok] in *.
+    - apply lexS_name; [assumption | now apply type_str_ident].
+    - destruct Hok as (Ht & Hn & Hsz). unfold p_arg, tk_arg. destruct (all_blk_type_p (v_type v)).
+      + rewrite app_assoc.
+        change [TName (type_str (v_type v)); TCol; TInt (v_size v); TLpar; TName (v_name v); TRpar]
+          with ([TName (type_str (v_type v))] ++ [TCol] ++ [TInt (v_size v)] ++ [TLpar] ++ [TName (v_name v)] ++ [TRpar]).
+        apply lexS_appS'; [apply lexS_name; [assumption | now apply type_str_ident] | | right; reflexivity].
+        apply (lexA_appS ([] ++ [58%N]) [TCol]); [apply lexA_colon, ws_nil|].
+        apply lexS_appS'; [ | | right; reflexivity].
+        * replace (TInt (v_size v)) with (TInt (s64 (v_size v))) by (f_equal; apply swrap_id; [lia | unfold in_s; cbn; lia]).
+          apply (lexS_uint [] (v_size v) ws_nil). unfold in_u64. lia.
+        * apply (lexA_appS ([] ++ [40%N]) [TLpar]); [apply lexA_lpar, ws_nil|].
+          apply lexA_S. apply lexS_appA; [apply (lexS_name [] _ ws_nil Hn) | apply (lexA_rpar []), ws_nil | reflexivity].
+      + rewrite app_assoc.
+        change [TName (type_str (v_type v)); TCol; TName (v_name v)] with ([TName (type_str (v_type v))] ++ [TCol] ++ [TName (v_name v)]).
+        apply lexS_appS'; [apply lexS_name; [assumption | now apply type_str_ident] | | right; reflexivity].
+        apply (lexA_appS ([] ++ [58%N]) [TCol]); [apply lexA_colon, ws_nil | apply (lexS_name [] _ ws_nil Hn)].
+  Qed.
+
+  Lemma sep_list_map {A B} sep (g : A -> B) (f : B -> bytes) l : sep_list sep f (map g l) = sep_list sep (fun x => f (g x)) l.
+  Proof.
+    destruct l as [|x l]; [reflexivity|]. cbn [map sep_list]. f_equal.
+    induction l as [|y l IH]; [reflexivity|]. cbn. now rewrite IH.
+  Qed.
+
+  Lemma proto_strings res args :
+    map type_str res ++ map p_arg args = map p_sigel (map SigRes res ++ map SigArg args).
+  Proof. rewrite map_app, !map_map. reflexivity. Qed.
+
+  Lemma dots_ident : is_ident (str "..."). Proof. apply is_ident_b_spec. reflexivity. Qed.
+
+
+  Lemma lex_proto_nonempty ws va els : els <> [] -> is_ws ws -> Forall csigel_ok els ->
+    lexA (ws ++ sep_list comma p_sigel els ++ (if va : bool then str ", ..." else []) ++ nl)
+         (sep_toks tk_sigel els ++ (if va then [TComma; TName (str "...")] else []) ++ [TNL]).
+  Proof.
+    intros Hne Hws Hok. rewrite !app_assoc. apply lexS_appA; [ | apply (lexA_nl []), ws_nil | reflexivity].
+    apply lexS_appS'.
+    - apply (lex_sep_list p_sigel tk_sigel csigel_ok); try assumption. intros. now apply lex_sigel.
+    - destruct va; [|apply lexS_nil]. apply (lex_comma_name (str "...") dots_ident).
+    - destruct va; [right; reflexivity | now left].
+  Qed.
+
+  Lemma lex_proto_tail ws va res args : is_ws ws -> Forall csigel_ok (map SigRes res ++ map SigArg args) ->
+    lexA (ws ++ p_proto_tail va res args) (tk_proto_tail va res args).
+  Proof.
+    intros Hws Hok. unfold p_proto_tail, tk_proto_tail.
+    rewrite proto_strings, sep_list_map.
+    destruct res as [|t res'], args as [|v args'].
+    - cbn [map app sep_list sep_toks]. destruct va.
+      + rewrite app_assoc. apply lexS_appA; [apply lexS_name; [assumption | apply dots_ident] | apply (lexA_nl []), ws_nil | reflexivity].
+      + cbn [app]. now apply lexA_nl.
+    - apply (lex_proto_nonempty ws va (map SigRes [] ++ map SigArg (v :: args'))); [discriminate | assumption | assumption].
+    - apply (lex_proto_nonempty ws va (map SigRes (t :: res') ++ map SigArg [])); [discriminate | assumption | assumption].
+    - apply (lex_proto_nonempty ws va (map SigRes (t :: res') ++ map SigArg (v :: args'))); [discriminate | assumption | assumption].
+  Qed.
+
+  (* ---------------------------------------------------------------- items *)
+
+  Lemma kw_ident (k : string) : is_ident_b (str k) = true -> is_ident (str k).
+  Proof. apply is_ident_b_spec. Qed.
+
+  Lemma lex_optname n : ident_opt n -> lexA (p_optname n) (tk_optname n).
+  Proof.
+    destruct n as [x|]; cbn [p_optname tk_optname ident_opt]; [|intros _; apply lexA_nil].
+    intros Hx. change [TName x; TCol] with ([TName x] ++ [TCol]).
+    apply lexS_appA; [apply (lexS_name [] x ws_nil Hx) | apply (lexA_colon []), ws_nil | reflexivity].
+  Qed.
+
+  (* "\tkw\tname\n" *)
+  Lemma lex_kw_name k n : is_ident_b (str k) = true -> is_ident n ->
+    lexA (tab ++ str k ++ tab ++ n ++ nl) [TName (str k); TName n; TNL].
+  Proof.
+    intros Hk Hn. change [TName (str k); TName n; TNL] with ([TName (str k)] ++ [TName n] ++ [TNL]).
+    rewrite !app_assoc. apply lexS_appA; [ | apply (lexA_nl []), ws_nil | reflexivity].
+    rewrite <- app_assoc. apply lexS_appS'; [apply lexS_name; [apply ws_tab | now apply kw_ident] | | right; reflexivity].
+    apply lexS_name; [apply ws_tab | assumption].
+  Qed.
+
+  Definition cel_ok (t : mtype) (z : Z) : Prop :=
+    match t with
+    | TI8 | TI16 | TI32 | TI64 => in_s64 z
+    | TU8 | TU16 | TU32 | TU64 => in_u64 z
+    | TF => okF z | TD => okD z | TLD => okLD z
+    | TP | TBLK _ | TRBLK | TUNDEF => False           (* p data prints as 0x...: hexadecimal literals are not covered *)
+    end.
+
+  Lemma lex_el ws t z : is_ws ws -> cel_ok t z -> lexS (ws ++ p_el fF fD fLD t z) (tk_el t z).
+  Proof.
+    intros Hws Hok. destruct t; cbn [cel_ok p_el tk_el] in *; try contradiction;
+      try (now apply lexS_int); try (now apply lexS_uint).
+    - destruct Hok as (body & E & Hl & Hp). rewrite E, <- Hp. apply lexA_S. now apply lexA_float.
+    - destruct Hok as (Hl & Hp). rewrite <- Hp at 2. now apply lexS_double.
+    - destruct Hok as (body & E & Hl & Hp). rewrite E, <- Hp. apply lexA_S. now apply lexA_ldouble.
+  Qed.
+
+  Definition citem_ok_simple (it : item) : Prop :=
+    match it with
+    | ItImport n | ItExport n | ItForward n => is_ident n
+    | ItBss n len => ident_opt n /\ in_u64 len
+    | ItRef n r d => ident_opt n /\ is_ident r /\ in_s64 d
+    | ItLref n l l2 d => ident_opt n /\ 0 <= l < 2 ^ 63 /\ (match l2 with Some x => 0 <= x < 2 ^ 63 | None => True end) /\ in_s64 d
+    | ItExpr n f => ident_opt n /\ is_ident f
+    | ItData n t els => ident_opt n /\ wf_mtype t /\ Forall (cel_ok t) els /\ (t = TU8 -> Forall (fun z => 0 <= z < 256) els)
+    | ItProto n va res args => is_ident n /\ Forall csigel_ok (map SigRes res ++ map SigArg args)
+    | ItFunc _ => True
+    end.
+
+  Lemma is_bytes_of_Z els : Forall (fun z => 0 <= z < 256) els -> is_bytes (map Z.to_N els).
+  Proof. intros H. apply Forall_map. eapply Forall_impl; [|exact H]. intros z Hz. cbv beta in Hz |- *. destruct Hz as [H0 H1]. apply N2Z.inj_lt. rewrite Z2N.id by exact H0. exact H1. Qed.
+
+  Lemma lex_item_simple it : (match it with ItFunc _ => False | _ => True end) -> citem_ok_simple it ->
+    lexA (p_item fF fD fLD it) (tk_item it).
+  Proof.
+    intros Hnf Hok. destruct it as [x|x|x|x len|x t els|x r d|x l l2 d|x f|x va res args|f]; try contradiction;
+      cbn [citem_ok_simple p_item tk_item] in *.
+    - now apply (lex_kw_name "import").
+    - now apply (lex_kw_name "export").
+    - now apply (lex_kw_name "forward").
+    - destruct Hok as [Hn Hl]. apply lexA_app; [now apply lex_optname|].
+      change [TName (str "bss"); TInt (s64 len); TNL] with ([TName (str "bss")] ++ [TInt (s64 len)] ++ [TNL]).
+      rewrite !app_assoc. apply lexS_appA; [ | apply (lexA_nl []), ws_nil | reflexivity].
+      rewrite <- app_assoc. apply lexS_appS'; [apply lexS_name; [apply ws_tab | now apply kw_ident] | | right; reflexivity].
+      apply lexS_uint; [apply ws_tab | assumption].
+    - (* data *)
+      destruct Hok as (Hn & Ht & Hels & Hu8). rewrite <- ?app_assoc. apply lexA_app; [now apply lex_optname|].
+      change (TName (type_str t) :: ?x) with ([TName (type_str t)] ++ x).
+      (* "\ttype" then "\tels" then optional comment, newline *)
+      rewrite (app_assoc tab (type_str t)).
+      assert (Hty : lexS (tab ++ type_str t) [TName (type_str t)]) by (apply lexS_name; [apply ws_tab | now apply type_str_ident]).
+      assert (Htail : lexA ((match t, els with
+                             | TU8, _ :: _ => if last els 1 =? 0 then str " # " ++ output_str (map Z.to_N els) else []
+                             | _, _ => []
+                             end) ++ nl) [TNL]).
+      { destruct t; try (cbn [app]; apply (lexA_nl []), ws_nil).
+        destruct els as [|z els']; [apply (lexA_nl []), ws_nil|].
+        destruct (last (z :: els') 1 =? 0); [|apply (lexA_nl []), ws_nil].
+        change (str " # " ++ output_str (map Z.to_N (z :: els'))) with ([32%N] ++ 35%N :: ([32%N] ++ output_str (map Z.to_N (z :: els')))).
+        rewrite <- app_assoc. cbn [app].
+        apply (lexA_comment [32%N] (32%N :: output_str (map Z.to_N (z :: els'))) ws_blank).
+        constructor; [discriminate|]. apply output_str_no_newline. apply is_bytes_of_Z. now apply Hu8. }
+      destruct els as [|z els'].
+      + (* no element: "\ttype\t" and the end of the line *)
+        cbn [sep_list sep_toks app].
+        assert (Em : forall (X : bytes), (match t, @nil Z with TU8, _ :: _ => X | _, _ => [] end) = []) by (intros; destruct t; reflexivity).
+        rewrite (Em []). cbn [app].
+        change [TName (type_str t); TNL] with ([TName (type_str t)] ++ [TNL]).
+        apply lexS_appA; [exact Hty | apply (lexA_nl [9%N]), ws_tab | reflexivity].
+      + apply lexS_appA; [exact Hty | | reflexivity].
+        rewrite !app_assoc. rewrite <- (app_assoc _ _ nl).
+        apply lexS_appA; [ | exact Htail | ].
+        * apply (lex_sep_list (p_el fF fD fLD t) (tk_el t) (cel_ok t)); try assumption; try discriminate; [|apply ws_tab].
+          intros. now apply lex_el.
+        * destruct t; try reflexivity. destruct (last (z :: els') 1 =? 0); reflexivity.
+    - destruct Hok as (Hn & Hr & Hd). apply lexA_app; [now apply lex_optname|].
+      replace (tab ++ str "ref" ++ tab ++ r ++ comma ++ p_int d ++ nl)
+        with (((tab ++ str "ref") ++ (tab ++ r) ++ (comma ++ p_int d)) ++ nl) by (repeat rewrite <- app_assoc; reflexivity).
+      change [TName (str "ref"); TName r; TComma; TInt d; TNL] with (([TName (str "ref")] ++ [TName r] ++ [TComma; TInt d]) ++ [TNL]).
+      apply lexS_appA; [ | apply (lexA_nl []), ws_nil | reflexivity].
+      apply lexS_appS'; [apply lexS_name; [apply ws_tab | now apply kw_ident] | | right; reflexivity].
+      apply lexS_appS'; [apply lexS_name; [apply ws_tab | assumption] | now apply lex_comma_int | right; reflexivity].
+    - destruct Hok as (Hn & Hl & Hl2 & Hd). rewrite <- ?app_assoc. apply lexA_app; [now apply lex_optname|].
+      set (P2 := match l2 with Some x0 => comma ++ p_label x0 | None => [] end).
+      set (P3 := if d =? 0 then [] else comma ++ p_int d).
+      set (T2 := match l2 with Some x0 => [TComma; TName (lname x0)] | None => [] end).
+      set (T3 := if d =? 0 then [] else [TComma; TInt d]).
+      replace (tab ++ str "lref" ++ tab ++ p_label l ++ P2 ++ P3 ++ nl)
+        with (((tab ++ str "lref") ++ (tab ++ p_label l) ++ P2 ++ P3) ++ nl) by (repeat rewrite <- app_assoc; reflexivity).
+      replace ([TName (str "lref"); TName (lname l)] ++ T2 ++ T3 ++ [TNL])
+        with (([TName (str "lref")] ++ [TName (lname l)] ++ T2 ++ T3) ++ [TNL]) by (cbn [app]; repeat rewrite <- app_assoc; reflexivity).
+      apply lexS_appA; [ | apply (lexA_nl []), ws_nil | reflexivity].
+      apply lexS_appS'; [apply lexS_name; [apply ws_tab | now apply kw_ident] | | right; reflexivity].
+      apply lexS_appS'; [apply (lexS_name [9%N] (lname l) ws_tab); apply lname_ident; lia | | ].
+      + apply lexS_appS'.
+        * subst P2 T2. destruct l2 as [y|]; [|apply lexS_nil]. apply (lex_comma_name (lname y)). apply lname_ident; lia.
+        * subst P3 T3. destruct (d =? 0); [apply lexS_nil | now apply lex_comma_int].
+        * subst P3. destruct (d =? 0); [now left | right; reflexivity].
+      + subst P2 P3. destruct l2 as [y|]; [right; reflexivity|]. destruct (d =? 0); [now left | right; reflexivity].
+    - destruct Hok as (Hn & Hf). apply lexA_app; [now apply lex_optname|]. now apply (lex_kw_name "expr").
+    - destruct Hok as (Hn & Hsig).
+      replace (x ++ str ":" ++ tab ++ str "proto" ++ tab ++ p_proto_tail va res args)
+        with (x ++ ([] ++ [58%N]) ++ (tab ++ str "proto") ++ (tab ++ p_proto_tail va res args)) by (repeat rewrite <- app_assoc; reflexivity).
+      replace ([TName x; TCol; TName (str "proto")] ++ tk_proto_tail va res args)
+        with ([TName x] ++ [TCol] ++ [TName (str "proto")] ++ tk_proto_tail va res args) by reflexivity.
+      apply lexS_appA; [apply (lexS_name [] x ws_nil Hn) | | reflexivity].
+      apply lexA_app; [apply lexA_colon, ws_nil|].
+      apply lexS_appA; [apply lexS_name; [apply ws_tab | now apply kw_ident] | | reflexivity].
+      apply lex_proto_tail; [apply ws_tab | assumption].
+  Qed.
 End Lexing.
